@@ -29,8 +29,8 @@ ID = "C12"
 LEVEL = "exploration"
 TECHNIQUE = ("bounded exhaustive enumeration of deviation-bounded constructor lattices of the radiative-shock solvers with "
              "flux-balance and translation oracles on every profile (explicit-state exploration, mode L)")
-CLAIM = ("Every parameter vector within K deviations of the default (K=1 quick, K=2 thorough) of ED_Solver, nED_Solver (six "
-         "closures) and ie_Solver, and the listed Mach numbers of Sn_Solver, is constructed; on each the time-translation "
+CLAIM = ("Every parameter vector within K deviations of the default (ED_Solver: K=2 in both tiers; nED_Solver with its six "
+         "closures and ie_Solver: K=1 quick, K=2 thorough), and the listed Mach numbers of Sn_Solver, is constructed; on each the time-translation "
          "with the upstream sound speed formed from the user's gamma, Cv, Tref is checked at every lattice time on ~200 "
          "profile points and all returned fields, the three total fluxes are formed on every node of the public profile and "
          "compared with their upstream values, and the end states are checked for equilibrium and the radiation-modified "
